@@ -12,7 +12,7 @@ META = {
             "transpile_total (on a connected graph covering the wires, with an oracle that returns a valid path whenever one exists, the model never returns Err and the loop fuel suffices). "
             "The model is tied to /repo on every run: random circuits over 3-6 wires on lines/rings/trees/random connected graphs (with and without a device, i.e. the measurement-completion/remapping option) are run through the real transpile with networkx.shortest_path wrapped to log its answers; the model, evaluated in Coq on the same input and the logged paths, must produce the same gate list (names, wires), the same measurement wires and the same number of oracle calls. "
             "Direct oracles on the implementation output: every 2-wire gate on an edge; for a subset, results of the original circuit on default.qubit equal those of the transpiled circuit (1e-9).",
-    "note": "Trusted: Coq kernel; hand transcription of transforms/transpile.py tied by correspondence only. Modelled rather than verified: networkx.shortest_path (oracle, its answers are validated by the model: endpoints, adjacency, source not revisited); the abstract semantics hypotheses H2/H3 (relabelling equivariance of gate semantics, SWAP = transposition action) are assumptions about PennyLane's simulator, confirmed only numerically on default.qubit. Not covered: the pre-expansion via devices.preprocess.decompose (gates are drawn from pennylane.ops names, which it leaves alone; C12/C33), StateMP/density-matrix handling and state_transposition post-processing, default.mixed, Hamiltonian/Prod observables (rejected by the code), coupling maps given in non-edge-list formats, wire-less measurements without a device. Theorems assume the device wires (if a device is given) cover the tape wires; otherwise wire_map lacks keys and remapping silently skips wires.",
+    "note": "Trusted: Coq kernel; hand transcription of transforms/transpile.py tied by correspondence only. Modelled rather than verified: networkx.shortest_path (oracle, its answers are validated by the model: endpoints, adjacency, source not revisited); the abstract semantics hypotheses H2/H3 (relabelling equivariance of gate semantics, SWAP = transposition action) are assumptions about PennyLane's simulator, confirmed only numerically on default.qubit. Not covered: the pre-expansion via devices.preprocess.decompose (gates are drawn from pennylane.ops names, which it leaves alone; C12/C33), StateMP/density-matrix handling and state_transposition post-processing, default.mixed, Hamiltonian/Prod observables (rejected by the code), coupling maps given in non-edge-list formats. Wire-less measurements without device wires are outside the model's semantics (a wire-less measurement has no wires to remap; what it measures depends on the executing device) and are exercised by ONE corpus case only, which currently FAILS the end-to-end comparison on /repo (key direct:wireless-measurement-without-device-wires: permutation applied to the gates but not to the wire-less measurement). Theorems assume the device wires (if a device is given) cover the tape wires; otherwise wire_map lacks keys and remapping silently skips wires.",
     "assumptions": ["H2: sem(relabel tau g) o act(tau) = act(tau) o sem(g) for transpositions tau (gate semantics is relabelling-equivariant)",
                     "H3: sem(SWAP a b) = act(transposition a b)",
                     "device wires, when a device is passed, cover the tape wires",
@@ -155,6 +155,11 @@ CORPUS = [
     # long line, end to end twice
     {"ops": [["RY", [5]], ["CNOT", [0, 5]], ["CY", [5, 0]], ["CZ", [4, 1]]],
      "meas": [["probs", [0, 5]], ["varY", [4]]], "edges": [[0, 1], [2, 1], [2, 3], [4, 3], [4, 5]], "dev": None, "numeric": True, "kind": "line"},
+    # FINDING (reported, see final report): a wire-less measurement with no device wires is not completed
+    # before routing, so the permutation is applied to the gates but not to this measurement: the executed
+    # result differs from the original circuit (argmax 5 vs 6).  Fixed key so that it can be triaged.
+    {"ops": [["PauliZ", [1]], ["PauliX", [0]], ["CNOT", [0, 2]]], "meas": [["probs", []]], "edges": [[0, 1], [1, 2]],
+     "dev": None, "numeric": True, "kind": "finding:wireless-no-device-wires", "key": "wireless-measurement-without-device-wires"},
     {"ops": [["Toffoli", [0, 1, 2]]], "meas": [["probs", [0]]], "edges": [[0, 1], [1, 2]], "dev": None, "numeric": False, "kind": "bad:3wire"},
     {"ops": [["CNOT", [0, 3]]], "meas": [["probs", [0]]], "edges": [[0, 1], [2, 3]], "dev": None, "numeric": False, "kind": "bad:disconnected"},
     {"ops": [["CNOT", [0, 5]]], "meas": [["probs", [0]]], "edges": [[0, 1], [2, 3]], "dev": None, "numeric": False, "kind": "bad:uncovered"},
@@ -171,11 +176,11 @@ def run(ctx):
     def report(kind, c, replay, what):
         nviol[kind] = nviol.get(kind, 0) + 1
         if nviol[kind] <= CAP:
-            ctx.violation(kind + ":" + json.dumps(c, sort_keys=True), replay, found_input=True, what=what)
+            ctx.violation(kind + ":" + (c.get("key") or json.dumps(c, sort_keys=True)), replay, found_input=True, what=what)
 
     rng = ctx.rng
     quick = ctx.tier == "quick"
-    n, n_num = (1200, 120) if quick else (8000, 800)
+    n, n_num = (800, 80) if quick else (8000, 800)
     cases = [dict(c) for c in CORPUS]
     rp = getattr(ctx, "replay", None)
     if rp and isinstance(rp.get("replay"), dict) and isinstance(rp["replay"].get("case"), dict):
